@@ -37,7 +37,10 @@ Definition step (s : st) (r : list Z) : option st :=
     (* a replayed Initial whose connection is gone legitimately opens a fresh attempt
        (index 255: no pair identity); genuine and in-flight duplicates must reach their owner *)
     let fresh_attempt := (out =? 2) && ((fld r 9 =? 5) || (fld r 9 =? 6)) in
-    if ((out =? 1) || (out =? 2)) && (0 <=? origin) && negb ((fld r 6) mod 1000 =? origin) && negb fresh_attempt then None
+    (* a corrupted datagram (pkind 3) may carry a damaged CID and reach another connection, which
+       then fails to authenticate it: only intact copies are judged *)
+    if ((out =? 1) || (out =? 2)) && (0 <=? origin) && negb (fld r 9 =? 3)
+       && negb ((fld r 6) mod 1000 =? origin) && negb fresh_attempt then None
     else if out =? 3 then Some {| lastp := lastp s; resp := rep r :: resp s; connected := connected s; born := born s; closed := closed s |}
     else Some s
   else if (tag r =? 3) && ((fld r 4 =? 20) || (fld r 4 =? 21)) then
